@@ -262,6 +262,35 @@ macro_rules! fstring_part {
 fstring_part!(c06_f_string_part_3, 3, 6);
 fstring_part!(c06_f_string_part_4, 4, 7);
 
+/// The escape path of `f_string_part` on its own: the text starts with a backslash, the bytes after it are symbolic
+/// (sixth seeding round: an escape skipped as two *bytes* lands inside a multi-byte escaped character; the general
+/// 3-byte harness ran out of memory on that rewritten scanner, fixing the first byte keeps this one small).
+macro_rules! fstring_part_escape {
+    ($name:ident, $n:expr, $unwind:expr) => {
+        #[cfg_attr(kani, kani::proof)]
+        #[cfg_attr(kani, kani::unwind($unwind))]
+        pub fn $name() {
+            let b: Bytes<$n> = Bytes::any();
+            if let Some(s) = b.as_str() {
+                assume(s.len() >= 2 && s.as_bytes()[0] == b'\\');
+                let mut lx = Lexer::new(s);
+                if let Some((tok, span)) = lx.f_string_part() {
+                    assert!(span.start == 0 && span.end <= s.len(), "part outside the input");
+                    assert!(s.is_char_boundary(span.end), "part ends inside a character");
+                    let text = match tok {
+                        FStringToken::StringEnd(t) => t,
+                        FStringToken::StringIntermediate(t) => t,
+                    };
+                    assert!(text.len() == span.end, "part text and span disagree");
+                }
+                cover!(s.len() == $n && s.as_bytes()[1] >= 0x80, "escaped_multi_byte_char");
+            }
+        }
+    };
+}
+fstring_part_escape!(c06_f_string_part_escape_3, 3, 6);
+fstring_part_escape!(c06_f_string_part_escape_4, 4, 7);
+
 /// The error token: when no recogniser fires on a non-empty input, the span
 /// `next_inner` reports must lie inside the input on character boundaries
 /// (it is what `RotoReport` later slices the source with).
@@ -368,6 +397,8 @@ crate::list![
     c06_skip_whitespace_4,
     c06_f_string_part_3,
     c06_f_string_part_4,
+    c06_f_string_part_escape_3,
+    c06_f_string_part_escape_4,
     c06_err_span_3,
     c06_err_span_4,
 ];
